@@ -364,9 +364,8 @@ func (txn *Txn) Insert(fn func(Row) error) (uint32, error) {
 // insert creates an insertion cursor for a given column and expiration time.
 func (txn *Txn) insert(fn func(Row) error, expireAt int64) (uint32, error) {
 
-	// At a new index, add the insertion marker
+	// Reserve a new index
 	idx := txn.owner.next()
-	txn.bufferFor(rowColumn).PutOperation(commit.Insert, idx)
 
 	// If there was an error during insertion, free the index so it can be re-used
 	if err := txn.QueryAt(idx, fn); err != nil {
@@ -374,6 +373,8 @@ func (txn *Txn) insert(fn func(Row) error, expireAt int64) (uint32, error) {
 		return idx, err
 	}
 
+	// The row was inserted, add the insertion marker
+	txn.bufferFor(rowColumn).PutOperation(commit.Insert, idx)
 	return idx, nil
 }
 
@@ -499,6 +500,16 @@ func (txn *Txn) DeleteKey(key string) error {
 // a transaction in order to perform partial rollbacks.
 func (txn *Txn) rollback() {
 	txn.owner.lock.Lock()
+
+	// Release the indices which were reserved by the inserts of this transaction
+	if markers, ok := txn.findMarkers(); ok {
+		for txn.reader.Seek(markers); txn.reader.Next(); {
+			if txn.reader.Type == commit.Insert {
+				txn.owner.fill.Remove(txn.reader.Index())
+			}
+		}
+	}
+
 	atomic.StoreUint64(&txn.owner.count, uint64(txn.owner.fill.Count()))
 	txn.owner.lock.Unlock()
 
